@@ -24,6 +24,7 @@ RAC = {
     'lhs_frontend': dict(crate='harper-literate-haskell', attach='harper-literate-haskell/src/lib.rs', file='lhs.rs', test='rac_lhs_frontend', function='LiterateHaskellParser / LiterateHaskellMasker'),
     'currency_conflict_free': dict(crate=CORE, attach=S + 'linting/currency_placement.rs', file='currency.rs', test='rac_currency_conflict_free', function='CurrencyPlacement::lint (caller of remove_overlaps)'),
     'mask_push': dict(crate=CORE, attach=S + 'mask/mod.rs', file='mask.rs', test='rac_mask_push', function='Mask::push_allowed'),
+    'typst_frontend': dict(crate='harper-typst', attach='harper-typst/src/lib.rs', file='typst.rs', test='rac_typst_frontend', function='Typst parser (typst_translator, offset_cursor)'),
 }
 # Verus piece name -> runtime contract checks that exercise the same clause on the real code
 RAC_FOR_FUNCTION = {
